@@ -185,6 +185,9 @@ def main():
     os.makedirs(root, exist_ok=True)
     # keep disk bounded: drop older runs of this property (replay files of the latest run stay)
     for d in sorted(glob.glob(os.path.join(root, "run-*"))):
+        m = re.search(r"-(\d+)$", d)
+        if m and os.path.exists("/proc/%s" % m.group(1)):
+            continue  # a concurrent run of the same check is still using it
         shutil.rmtree(d, ignore_errors=True)
     run = os.path.join(root, "run-%s-s%d-%d" % (tier, seed, os.getpid()))
     os.makedirs(run)
@@ -306,7 +309,7 @@ def main():
                            "witness": {"report": rep["text"]}, "batch": b, "case_id": 0})
 
     # floors
-    for k, mn in tcfg.get("floors", {}).items():
+    for k, mn in ({} if a.replay else tcfg.get("floors", {})).items():
         if counters.get(k, 0) < mn:
             inconcl.append("floor not reached: %s=%d < %d" % (k, counters.get(k, 0), mn))
     if len(fps) < 2 and not a.replay:
